@@ -233,17 +233,20 @@ def design(chk: Check, pid: str, tier: str) -> None:
                            (0, 'ns', 18), (3, 'e', 18), (3, 'ew', 18)])
         if not quick:
             goods = GOOD
-            for perm in itertools.islice(itertools.permutations(goods), 0, 24, 2):
+            for perm in itertools.islice(itertools.permutations(goods), 0, 24, 3):
                 seq: List[tuple] = []
                 seated: Dict[int, str] = {}
-                for g in perm:
-                    if seated and r.random() < 0.8:
+                for gi, g in enumerate(perm):
+                    # at most 8 requests in all (3.0e6 states, 2-3 minutes; every
+                    # further request multiplies the state space by about three)
+                    room = lambda: len(seq) + (len(perm) - gi) < 8      # noqa: E731
+                    if seated and r.random() < 0.8 and room():
                         s = r.choice(sorted(seated))
                         seq.append((s, seated[s], 18))                  # seat taken
-                    if r.random() < 0.5:
+                    if r.random() < 0.5 and room():
                         seq.append((g[0], g[1], r.choice([17, 19])))    # wrong version
                     p = (g[0] + 2) % 4
-                    if p in seated and r.random() < 0.7:
+                    if p in seated and r.random() < 0.7 and room():
                         seq.append((g[0], seated[p] + 'x', 18))         # partner's team differs
                     seq.append(g)
                     seated[g[0]] = g[1]
